@@ -250,10 +250,10 @@ m("C17","removefile-keeps-proofs","x/storage/keeper/files.go",
   """		k.RemoveProofWithBuiltKey(ctx, []byte(proof))
 	}
 
-	k.removeFilePrimary""","""		_ = proof
+	if file.Expires == 0 {""","""		_ = proof
 	}
 
-	k.removeFilePrimary""","C17/R2","removal-deletes-listed-proofs")
+	if file.Expires == 0 {""","C17/R2","removal-deletes-listed-proofs")
 m("C17","proof-record-wrong-owner","x/storage/types/file_deal.go",
   """		Owner:        f.Owner,
 		Start:        f.Start,
